@@ -490,3 +490,22 @@ def tr_card(rng, tid, motion, spelling='12'):
                None]
         return M.TrCard(tid, org, ent, motion=motion)
     raise ValueError(spelling)
+
+
+def tr_spec(rng, motion, form):
+    '''Spell a motion as an inline cell transformation.  Forms: inline3
+    (translation only), inline12, inline13 (m=1 appended), star (degrees).'''
+    org = [float(v) for v in motion.o]
+    flat = [float(v) for v in motion.b.reshape(9)]
+    if form == 'inline3':
+        return M.TrSpec(origin=org, entries=[], motion=Motion(org, np.eye(3)))
+    if form == 'inline12':
+        return M.TrSpec(origin=org, entries=flat, motion=motion)
+    if form == 'inline13':
+        return M.TrSpec(origin=org, entries=flat + [1], motion=motion)
+    if form == 'star':
+        degs = [math.degrees(math.acos(max(-1.0, min(1.0, v)))) for v in flat]
+        true_b = np.array([math.cos(math.radians(d)) for d in degs]).reshape(3, 3)
+        return M.TrSpec(origin=org, entries=degs, starred=True,
+                        motion=Motion(org, true_b))
+    raise ValueError(form)
